@@ -187,6 +187,7 @@ struct RowModel {
     std::vector<unsigned> ks = keys_of(m);
     int n = (int)ks.size();
     bool have_it = false; SRow::iterator rit; bool exp_end = false; unsigned exp_key = 0;
+    std::string trig = "none";     // narrow predicate over the input, evaluated before the call (known findings)
     switch (opk(op)) {
       case R_INS: rit = r.insert((dim_t)a); if (!m.count(a)) m[a] = 0; have_it = true; exp_key = a; break;
       case R_INSV: rit = r.insert((dim_t)a, mpz_class(VNEW)); m[a] = VNEW; have_it = true; exp_key = a; break;
@@ -254,7 +255,10 @@ struct RowModel {
         if (d.size() != o.size) { f->put("Dense_Row::Dense_Row(const Sparse_Row&)", "row:size", std::to_string(d.size()), std::to_string(o.size)); return false; }
         for (unsigned i = 0; i < o.size; ++i) if (d[i] != (m.count(i) ? m[i] : mpz_class(0))) { f->put("Dense_Row::Dense_Row(const Sparse_Row&)", "value:coefficient!=reference", zs(d[i]), map_str(m), "index " + std::to_string(i)); return false; }
         std::unique_ptr<SRow> c(opk(op) == R_FROMDENSE ? new SRow(d) : new SRow(d, (dim_t)a, (dim_t)K + 3));
-        if (opk(op) == R_FROMDENSESZ) o.size = a;
+        if (opk(op) == R_FROMDENSESZ) {
+          if (!m.empty() && m.rbegin()->first >= (unsigned)a) trig = "sz_smaller_than_dense_row_size_and_nonzero_coefficient_beyond_sz";
+          o.size = a; m.erase(m.lower_bound(a), m.end());
+        }
         for (Map::iterator i = m.begin(); i != m.end();) if (i->second == 0) m.erase(i++); else ++i;
         o.r.swap(c); break; }
       case R_ASSIGNDENSE: {
@@ -314,7 +318,7 @@ struct RowModel {
     }
     SRow& r2 = *o.r;
     std::string ob, ex, cl = check_row(r2, o.size, m, ob, ex);
-    if (!cl.empty()) { f->put(st, cl, ob, ex); return false; }
+    if (!cl.empty()) { f->put(st, cl, ob, ex, "", trig); return false; }
     if (have_it) {
       if (exp_end) { if (rit != r2.end()) { f->put(st, "return:iterator", it_str(r2.tree, rit), "end()"); return false; } }
       else if (!it_at(r2.tree, rit, exp_key, m[exp_key])) { f->put(st, "return:iterator", it_str(r2.tree, rit), "key " + std::to_string(exp_key) + " value " + zs(m[exp_key]), tree_dump(r2.tree)); return false; }
@@ -337,7 +341,7 @@ struct RowModel {
     for (int p = 0; p < n; ++p) for (int i = (p ? (int)ks[p - 1] + 1 : 0); i <= (int)ks[p]; ++i) v.push_back(mk(R_FSWAP, p, i));
     for (int s = minsize; s <= K; ++s) {
       v.push_back(mk(R_RESIZE, s, 0)); if (s <= S) v.push_back(mk(R_RESIZE, s, 1)); if (s >= S) v.push_back(mk(R_RESIZE, s, 2));
-      v.push_back(mk(R_COPYSZ, s)); if (s >= S) v.push_back(mk(R_FROMDENSESZ, s));
+      v.push_back(mk(R_COPYSZ, s)); v.push_back(mk(R_FROMDENSESZ, s));
     }
     v.push_back(mk(R_CLEAR)); v.push_back(mk(R_COPY)); v.push_back(mk(R_COPYCAP)); v.push_back(mk(R_FROMDENSE));
     for (int y = 0; y < NY; ++y) { v.push_back(mk(R_ASSIGN, y)); v.push_back(mk(R_MSWAP, y, 0)); v.push_back(mk(R_MSWAP, y, 1)); v.push_back(mk(R_ASSIGNDENSE, y)); v.push_back(mk(R_SWAPDENSE, y, 0)); v.push_back(mk(R_SWAPDENSE, y, 1)); }
